@@ -21,15 +21,14 @@ UB_FATAL = "shift,signed-integer-overflow,integer-divide-by-zero,null,return,unr
 
 VARIANTS = {
     # ASan + UBSan: the default monitor build
-    "asan": ["-fsanitize=address,undefined", "-fno-sanitize-recover=" + UB_FATAL,
-             "-fno-sanitize=alignment"],
+    # UBSan checks are compiled recoverable; UBSAN_OPTIONS=halt_on_error=1 (san_env(halt_ub=True)) makes them fatal
+    "asan": ["-fsanitize=address,undefined", "-fno-sanitize=alignment"],
     # TSan build for C18/C20
     "tsan": ["-fsanitize=thread"],
     # plain build (fast; used for big enumerations where the monitor is the spec, e.g. C12/C14)
     "plain": [],
     # repository's own consistency assertions in cache.c
-    "asan-cc": ["-fsanitize=address,undefined", "-fno-sanitize-recover=" + UB_FATAL,
-                "-fno-sanitize=alignment", "-DCACHE_CONSISTENCY=1"],
+    "asan-cc": ["-fsanitize=address,undefined", "-fno-sanitize=alignment", "-DCACHE_CONSISTENCY=1"],
 }
 
 # io-sim.c is our transmitter; its caption generator converts a negative double to unsigned
@@ -153,10 +152,10 @@ def build_driver(name, variant="asan", extra=None, srcs=None, cxx=False):
 
 
 # environment for running instrumented binaries
-def san_env(extra=None):
+def san_env(extra=None, halt_ub=False):
     e = dict(os.environ)
     e["ASAN_OPTIONS"] = "detect_leaks=1:abort_on_error=0:exitcode=99:allocator_may_return_null=1:detect_stack_use_after_return=0"
-    e["UBSAN_OPTIONS"] = "print_stacktrace=1:halt_on_error=0:exitcode=98"
+    e["UBSAN_OPTIONS"] = "print_stacktrace=1:halt_on_error=%d:exitcode=98" % (1 if halt_ub else 0)
     e["LSAN_OPTIONS"] = "exitcode=97"
     e["TSAN_OPTIONS"] = "exitcode=96:halt_on_error=0:second_deadlock_stack=1"
     if extra:
